@@ -1091,7 +1091,7 @@ def rule_idempotent(rep, repo, tier):
   from ..vset import VS
   mod = repo.module(quant.QMOD)
   cfgs = []
-  for b, i, kn in itertools.product((2, 4), (0, 1), (True, False)):
+  for b, i, kn in itertools.product((1, 2, 4), (0, 1), (True, False)):
     cfgs.append(("quantized_bits", dict(bits=b, integer=i, keep_negative=kn,
                                         alpha=1)))
     cfgs.append(("quantized_linear", dict(bits=b, integer=i,
